@@ -615,11 +615,24 @@ fn judge_c12(script: &SockScript, l: &SockLog) -> Vec<SFinding> {
         }
         for ((at, from, id), cs) in &keys {
             if cs.len() > 1 {
-                // a clash only matters if both connections really got going (both SYNs were answered or data flowed)
-                let live: Vec<&usize> = cs.iter().filter(|ci| {
-                    let (x, y, c, _) = conns[**ci];
-                    l.wire.iter().enumerate().any(|(i, w)| !w.injected && l.wire_from[i] == y && l.wire_to[i] == x && w.conn_id == c && w.ptype == 2)
-                }).collect();
+                // a clash only matters while both connections exist at that socket: the lifetime of each
+                // connection's object there (hook lifecycle log: created when the handshake completes,
+                // destroyed when the connection task ends); ids may be reused once a connection is gone
+                let lifetime = |ci: usize| -> Option<(u64, u64)> {
+                    let (x, y, c, t_syn) = conns[ci];
+                    // object at `at`: the connector's sends with c+1 to y, the acceptor's with c to x
+                    let key = if *at == x { (y, c.wrapping_add(1)) } else { (x, c) };
+                    let created = l.lifecycle.iter().find(|e| e.1 && (e.2, e.3) == key && e.0 >= t_syn)?.0;
+                    let dropped = l.lifecycle.iter().find(|e| !e.1 && (e.2, e.3) == key && e.0 >= created).map(|e| e.0).unwrap_or(u64::MAX);
+                    Some((created, dropped))
+                };
+                let spans: Vec<(usize, (u64, u64))> = cs.iter().filter_map(|ci| lifetime(*ci).map(|s| (*ci, s))).collect();
+                let mut live: Vec<usize> = vec![];
+                for (i, (ci, a)) in spans.iter().enumerate() {
+                    if spans.iter().enumerate().any(|(j, (_, b))| i != j && a.0 < b.1 && b.0 < a.1) {
+                        live.push(*ci);
+                    }
+                }
                 if live.len() > 1 {
                     v.push(sf(
                         "C12",
@@ -952,7 +965,7 @@ pub fn replay(v: &Value) -> i32 {
     }
     println!("max_streams_seen={:?} streams_at_end={:?} connecting_at_end={:?} live_at_end={} arms={:?}", l.max_streams_seen, l.streams_at_end, l.connecting_at_end, l.live_at_end, l.arms.iter().map(|a| a.1).collect::<Vec<_>>());
     let want = v["signature"].as_str().unwrap_or("");
-    let fs = judge_c13(&script, &l, script.cfgs[1].max_live >= 32);
+    let fs = if r["kind"].as_str() == Some("c12") { judge_c12(&script, &l) } else { judge_c13(&script, &l, script.cfgs[1].max_live >= 32) };
     let mut hit = false;
     for f in &fs {
         println!("FINDING {} {} {}: {}", f.property, f.monitor, f.signature, f.detail);
